@@ -43,8 +43,11 @@ REG = {
 REG["C16"] = {
     "thorough_extra": ["replay"],
     "quick_extra": ["replay"],
-    "units": ["config"],
-    "scope": "TestCaseConfig::{with_defaults_from, with_overrides_from}, DocumentConfig::{with_defaults_from, with_overrides_from}: "
+    "units": ["config", "cliconfig"],
+    "scope": "The command-line layer (unit cliconfig): GlobalSharedParameters::to_testcase_config / to_document_config and Args::to_testcase_config / to_document_config of `scrut test` set exactly "
+             "the keys whose flags are given (--no-combine-output before --combine-output, --no-keep-output-crlf before --keep-output-crlf, --shell, --timeout-seconds incl. 0, -A / -P lists) and leave "
+             "every other key unset, so that lower layers show through (TestCaseConfig::empty / DocumentConfig::empty are `every key unset`). "
+             "TestCaseConfig::{with_defaults_from, with_overrides_from}, DocumentConfig::{with_defaults_from, with_overrides_from}: "
              "every key and every individual environment variable comes from the higher layer when it sets it (tc_layer/env_layer/doc_layer); "
              "lemmas over the contracts: associativity, identity of the empty layer, 4-layer first-Some statement, prepend/append accumulate in order",
     "assumptions": [
@@ -55,8 +58,9 @@ REG["C16"] = {
         "(testcase.config = ...) are extracted verbatim as functions of their own and verified against tc_layer3/tc_layer; the rest of those functions is dropped. "
         "The command-line layer (bin/commands/test.rs with_overrides_from(&testcase_config)) is checked textually only (anchor lost => exit 2)",
         "field-access shims TestCaseShim/ContextShim stand for TestCase.config / Context.config",
+        "unit cliconfig: #[derive(Default)] of TestCaseConfig / DocumentConfig yields `every key unset` (external_body impls); logging::LogLevel and Option<Escaper> fields are opaque types; clap attributes dropped",
     ],
-    "not_decided": ["that every command-line flag is translated into the cli layer (bin/commands/root.rs)", "the values of the format defaults",
+    "not_decided": ["the clap declarations that fill GlobalSharedParameters / Args from argv; the `create` and `update` commands' own flag translation", "the values of the format defaults",
                     "that a key which is WRITTEN in a layer is read as set (serde_yaml / humantime deserializers): BOUNDED cross-check only — verif-replay config reads inline configurations and front "
                     "matter with timeouts 0s / 0ms / 5s / 1m 1s / absent and layers every pair"],
     "callsites": [
